@@ -24,6 +24,7 @@ type Effect struct {
 	C     *FCtx
 	Flow  *Flow
 	Entry string
+	VType  string   // type of the called value for dynamic calls (e.g. termincommittee.OnInCommitteeCommitCallback)
 	Config string   // named assumption set in force ("" = none)
 	Splits []string // auto case-split atoms assumed on this path
 }
@@ -57,6 +58,9 @@ type Walker struct {
 	// NoDescend: callee short names never entered (their internals are governed by their own rules)
 	NoDescend map[string]bool
 	Config    string
+	// Inject: facts added to the caller's fact set just before a call is entered (container invariants proved by
+	// other rules); returns nil when nothing applies
+	Inject    func(e *Effect) []*Atom
 	Assume    []*Atom
 	AutoSplit bool
 	splits    []string
@@ -136,6 +140,28 @@ func (w *Walker) correlatedConds(c *FCtx) []*Atom {
 			res = append(res, first[k])
 		}
 	}
+	// conditions of a diamond whose join defines a phi (the two arms compute different values of one variable)
+	for _, b := range c.Fn.Blocks {
+		ifi, ok := b.Instrs[len(b.Instrs)-1].(*ssa.If)
+		if !ok || len(res) >= 2 {
+			continue
+		}
+		a := atomOf(c.Term(ifi.Cond), "")
+		if a == nil {
+			continue
+		}
+		pos := a
+		if a.Neg {
+			pos = a.Negate()
+		}
+		if pos.Pred != "eq" || count[pos.Key()] >= 2 || count[pos.Key()] == 0 {
+			continue
+		}
+		if !diamondWithPhi(b) {
+			continue
+		}
+		res = append(res, first[pos.Key()])
+	}
 	if len(res) > 2 {
 		res = res[:2]
 	}
@@ -190,6 +216,14 @@ func (w *Walker) visit(fn *ssa.Function, env map[ssa.Value]*Term, init Facts, pa
 		}
 	}
 	fl := w.A.NewFlow(c, init, w.Assume...)
+	if len(w.Assume) > 0 || len(w.splits) > 0 {
+		// second pass: phi nodes resolved over the feasible edges only (path-sensitive under the case split)
+		if dead := fl.DeadEdges(); len(dead) > 0 {
+			c = w.A.NewFCtx(fn, env, 0)
+			c.DeadEdge = dead
+			fl = w.A.NewFlow(c, init, w.Assume...)
+		}
+	}
 	if fl.Diverged {
 		w.Undecided = append(w.Undecided, "dataflow did not converge in "+funcID(fn))
 	}
@@ -291,7 +325,18 @@ func (w *Walker) instr(in ssa.Instruction, c *FCtx, fl *Flow, facts Facts, path 
 		if v, ok := in.(*ssa.Call); ok {
 			term = c.Term(v)
 		}
-		w.emit(&Effect{Kind: kind, Name: name, Args: args, Term: term, Instr: in, Facts: facts.Clone(), Path: path, C: c, Flow: fl})
+		vtype := ""
+		if !cc.IsInvoke() && cc.StaticCallee() == nil {
+			vtype = typeShort(cc.Value.Type())
+		}
+		eff := &Effect{Kind: kind, Name: name, Args: args, Term: term, Instr: in, Facts: facts.Clone(), Path: path, C: c, Flow: fl, VType: vtype}
+		if w.Inject != nil {
+			for _, at := range w.Inject(eff) {
+				facts.Add(at)
+				eff.Facts.Add(at)
+			}
+		}
+		w.emit(eff)
 		for _, f := range callees {
 			if f.Blocks == nil || !inLibraryScope(funcPkgPath(f)) || isSpecTypesPkg(funcPkgPath(f)) {
 				continue
@@ -348,4 +393,49 @@ func (w *Walker) dynCallees(in ssa.Instruction) []*ssa.Function {
 	}
 	sort.Slice(res, func(i, j int) bool { return funcID(res[i]) < funcID(res[j]) })
 	return res
+}
+
+
+// diamondWithPhi: both arms of the If at the end of b reach a join block (dominated by b, not a loop header of b's loop)
+// that has a phi with different incoming values from the two sides.
+func diamondWithPhi(b *ssa.BasicBlock) bool {
+	if len(b.Succs) != 2 {
+		return false
+	}
+	reach := func(from *ssa.BasicBlock) map[*ssa.BasicBlock]bool {
+		seen := map[*ssa.BasicBlock]bool{}
+		stack := []*ssa.BasicBlock{from}
+		for len(stack) > 0 {
+			n := stack[len(stack)-1]
+			stack = stack[:len(stack)-1]
+			if seen[n] || n == b {
+				continue
+			}
+			seen[n] = true
+			stack = append(stack, n.Succs...)
+		}
+		return seen
+	}
+	r0, r1 := reach(b.Succs[0]), reach(b.Succs[1])
+	for j := range r0 {
+		if !r1[j] || !b.Dominates(j) || j == b {
+			continue
+		}
+		for _, in := range j.Instrs {
+			phi, ok := in.(*ssa.Phi)
+			if !ok {
+				break
+			}
+			// incoming values differ
+			var first ssa.Value
+			for _, e := range phi.Edges {
+				if first == nil {
+					first = e
+				} else if e != first {
+					return true
+				}
+			}
+		}
+	}
+	return false
 }
